@@ -230,3 +230,40 @@ def gq(c):
             c.ensure('C03.distribution.documented_count', len(d.x) == rings * (1 if sym_ else 3))
             for i in range(len(d.x)):
                 c.ensure('C03.distribution.inside_unit_pupil', c.val(d.x[i]) * c.val(d.x[i]) + c.val(d.y[i]) * c.val(d.y[i]) <= 1 + 1e-12)
+
+
+# ---- edit-then-ask: rays are launched for the lens as it is at the time of the call ---------------------------------------
+@contract('C03.requery.pupil', [RG + ':RayGenerator.generate_rays', RG + ':RayGenerator._get_ray_origins'], ['C03', 'C05', 'C13'], bundle=True, max_paths=64)
+def requery_pupil(c):
+    """a second launch after the entrance pupil moved / changed size aims at the new pupil (whatever moved it)"""
+    lens, v, apv = _lens(c, False, 'EPD', 'angle', stub=False)
+    vals = {'EPL': c.real('EPL_first', 1, 30), 'EPD': c.real('EPD_first', 1, 8, positive=True)}
+    lens.paraxial.EPL = lambda: vals['EPL']
+    lens.paraxial.EPD = lambda: vals['EPD']
+    Hy, Px, Py = c.real('Hy', -1, 1), c.real('Px', -1, 1), c.real('Py', -1, 1)
+    c.require(Px * Px + Py * Py <= 1)
+    lens.ray_generator.generate_rays(0.0, Hy, c.arr(Px), c.arr(Py), 0.55)
+    vals['EPL'], vals['EPD'] = c.real('EPL_second', 1, 30), c.real('EPD_second', 1, 8, positive=True)
+    vx, vy = lens.fields.get_vig_factor(0.0, Hy)
+    rays = lens.ray_generator.generate_rays(0.0, Hy, c.arr(Px), c.arr(Py), 0.55)
+    P0, D = pos_of(c, rays), dir_of(c, rays)
+    P1 = (Px * vals['EPD'] / 2 * (1 - c.val(vx)), Py * vals['EPD'] / 2 * (1 - c.val(vy)), vals['EPL'])
+    cr = cross(D, tuple(P1[i] - P0[i] for i in range(3)))
+    for i in range(3):
+        c.ensure_eq('C03.requery.second_launch_aims_at_the_current_entrance_pupil', cr[i], 0)
+
+
+@contract('C03.requery.fields', [RG + ':RayGenerator._get_ray_origins', 'optiland/fields.py:FieldGroup.max_field', 'optiland/fields.py:FieldGroup.get_vig_factor'],
+          ['C03', 'C13'], bundle=True, max_paths=64)
+def requery_fields(c):
+    """a field added after a first launch changes the normalisation: Hy = 1 is the largest field of the *current* table"""
+    lens, v, apv = _lens(c, True, 'EPD', 'object_height')
+    Hy = c.real('Hy', -1, 1)
+    lens.ray_generator.generate_rays(0.0, Hy, c.arr(0.0), c.arr(0.0), 0.55)
+    lens.fields.get_vig_factor(0.0, Hy)
+    lens.add_field(y=8.0, vx=0.3, vy=0.25)                  # larger than every field of the table (max was 5)
+    rays = lens.ray_generator.generate_rays(0.0, Hy, c.arr(0.0), c.arr(0.0), 0.55)
+    c.ensure_eq('C03.requery.field_point_uses_the_current_field_table', c.val(rays.y), Hy * 8.0)
+    vx, vy = lens.fields.get_vig_factor(0.0, 1.0)
+    c.ensure_eq('C03.requery.vignetting_uses_the_current_field_table', c.val(vx), 0.3)
+    c.ensure_eq('C03.requery.vignetting_uses_the_current_field_table', c.val(vy), 0.25)
